@@ -31,6 +31,83 @@ type p2pWorld struct {
 	targets   [2][2]*hx.Node
 	schemaLog []func(n *hx.Node) error
 	subs      [2]*repSub
+	// pub[side]: topics (docID / collection id) on which the current process instance of that side has
+	// published an update; raced[side]: topics subscribed by an Add operation while pub was set.
+	// Used by the diagnoser of the known subscription race.
+	pub, raced [2]map[string]bool
+}
+
+const sigTopicRace = "C14/p2p/subscription-dropped/add-p2p-topic-races-with-publish"
+
+// notePublish records that both sides published an update for a document of a collection.
+func (p *p2pWorld) notePublish(col, docID string) {
+	topics := []string{docID}
+	if c, err := p.w.T.DB.GetCollectionByName(p.w.T.Ctx, col); err == nil {
+		topics = append(topics, c.SchemaRoot())
+	}
+	for side := range p.pub {
+		for _, t := range topics {
+			if t != "" {
+				p.pub[side][t] = true
+			}
+		}
+	}
+}
+
+func (p *p2pWorld) noteAdd(topic string) {
+	for side := range p.pub {
+		if p.pub[side][topic] {
+			p.raced[side][topic] = true
+			p.w.info.flag("add-p2p-topic-after-publish-in-same-lifetime")
+		}
+	}
+}
+
+func (p *p2pWorld) restartedR() {
+	p.pub[0], p.raced[0] = map[string]bool{}, map[string]bool{}
+}
+
+// quiesce gives an in-flight publish on the topic time to finish (avoidance of the known race; the
+// code under test offers no completion signal for the asynchronous publish).
+func (p *p2pWorld) quiesce(topic string) {
+	if p.w.c.Avoid && rec.IsKnown(sigTopicRace) && (p.pub[0][topic] || p.pub[1][topic]) {
+		time.Sleep(25 * time.Millisecond)
+	}
+}
+
+// explainsTopicDiff reports whether a difference of the subscribed-topic sets is fully explained by
+// the known race: every topic missing on one side was subscribed by AddP2PCollections/AddP2PDocuments
+// on that side's current process instance after the same instance had published an update on the
+// topic (the asynchronous temporary join of publishLog makes the subscription fail, which is only logged).
+func (p *p2pWorld) explainsTopicDiff(rText, tText string) bool {
+	set := func(s string) map[string]bool {
+		m := map[string]bool{}
+		for _, l := range strings.Split(s, "\n") {
+			if l != "" {
+				m[l] = true
+			}
+		}
+		return m
+	}
+	r, t := set(rText), set(tText)
+	n := 0
+	for topic := range r {
+		if !t[topic] {
+			n++
+			if !p.raced[1][topic] {
+				return false
+			}
+		}
+	}
+	for topic := range t {
+		if !r[topic] {
+			n++
+			if !p.raced[0][topic] {
+				return false
+			}
+		}
+	}
+	return n > 0
 }
 
 // repSub counts replicator-completed events of one node.
@@ -95,7 +172,13 @@ func (s *repSub) stop() {
 	s.bus.Unsubscribe(s.sub)
 }
 
-func newP2PWorld(w *world) *p2pWorld { return &p2pWorld{w: w} }
+func newP2PWorld(w *world) *p2pWorld {
+	p := &p2pWorld{w: w}
+	for side := range p.pub {
+		p.pub[side], p.raced[side] = map[string]bool{}, map[string]bool{}
+	}
+	return p
+}
 
 func (p *p2pWorld) attach() {
 	p.subs[0] = newRepSub(p.w.R.DB.Events())
@@ -214,11 +297,19 @@ func (p *p2pWorld) apply(o Op) *hx.Failure {
 			}
 			info := p.targets[side][i].N.Peer.PeerInfo()
 			before := p.subs[side].count()
+			// A replicator change can meet a transaction conflict with the peer's own bookkeeping
+			// (status update after a push); the caller's remedy is to retry, so the check does.
 			var err error
-			if o.K == opSetRep {
-				err = n.N.Peer.SetReplicator(n.Ctx, info, names...)
-			} else {
-				err = n.N.Peer.DeleteReplicator(n.Ctx, info, names...)
+			for attempt := 0; attempt < 50; attempt++ {
+				if o.K == opSetRep {
+					err = n.N.Peer.SetReplicator(n.Ctx, info, names...)
+				} else {
+					err = n.N.Peer.DeleteReplicator(n.Ctx, info, names...)
+				}
+				if err == nil || !strings.Contains(strings.ToLower(err.Error()), "transaction conflict") {
+					break
+				}
+				w.info.flag("replicator-change-retried-after-conflict")
 			}
 			if err == nil {
 				// the in-memory table is updated asynchronously; the event marks its completion
@@ -235,6 +326,13 @@ func (p *p2pWorld) apply(o Op) *hx.Failure {
 		if !ok {
 			return nil
 		}
+		topic := ""
+		if c, err := w.T.DB.GetCollectionByName(w.T.Ctx, name); err == nil {
+			topic = c.SchemaRoot()
+		}
+		if o.K == opAddP2PCol {
+			p.quiesce(topic)
+		}
 		rt, f := w.both(o.K, name, func(n *hx.Node, _ bool) string {
 			if o.K == opAddP2PCol {
 				return errText(n.N.Peer.AddP2PCollections(n.Ctx, name))
@@ -245,12 +343,18 @@ func (p *p2pWorld) apply(o Op) *hx.Failure {
 			return f
 		}
 		note(rt)
+		if o.K == opAddP2PCol && !isErr(rt) {
+			p.noteAdd(topic)
+		}
 	case opAddP2PDoc, opRemP2PDoc:
-		name, ok := w.pickCol(o.C)
+		name, ok := w.pickColWithDocs(o.C)
 		if !ok || len(w.docs[name]) == 0 {
 			return nil
 		}
 		id := w.docs[name][mod(o.D, len(w.docs[name]))]
+		if o.K == opAddP2PDoc {
+			p.quiesce(id)
+		}
 		rt, f := w.both(o.K, id, func(n *hx.Node, _ bool) string {
 			if o.K == opAddP2PDoc {
 				return errText(n.N.Peer.AddP2PDocuments(n.Ctx, id))
@@ -261,6 +365,9 @@ func (p *p2pWorld) apply(o Op) *hx.Failure {
 			return f
 		}
 		note(rt)
+		if o.K == opAddP2PDoc && !isErr(rt) {
+			p.noteAdd(id)
+		}
 	}
 	return nil
 }
